@@ -75,6 +75,7 @@ def unit_criteria(U):
         "overlap_any_threshold": lambda: z3.Or(z3.And(a_s - t <= c_e + 1, c_e + 1 <= a_e + 1), z3.And(a_s <= c_s, c_s <= a_e + t)),
     }
     vars_ = {"acc.start": a_s, "acc.end": a_e, "cur.start": c_s, "cur.end": c_e, "threshold": t}
+    vars_.update({k: sq(k) for k in ("acc.seqid", "cur.seqid", "acc.strand", "cur.strand", "acc.featuretype", "cur.featuretype")})
     for name, spec in specs.items():
         fn = getattr(MC, name)
 
@@ -86,19 +87,38 @@ def unit_criteria(U):
             return it.call(f, [acc, cur, [acc]], {})
 
         def replay(m, name=name):
-            acc = F.Feature(seqid="a", start=m.get("acc.start", 1), end=m.get("acc.end", 1), strand="+", featuretype="x")
-            cur = F.Feature(seqid="a", start=m.get("cur.start", 1), end=m.get("cur.end", 1), strand="+", featuretype="x")
-            f = getattr(MC, name)
-            if name.endswith("threshold"):
-                f = f(m.get("threshold", 0))
-            got = bool(f(acc, cur, [acc]))
-            sm = {"acc.start": acc.start, "acc.end": acc.end, "cur.start": cur.start, "cur.end": cur.end, "threshold": m.get("threshold", 0)}
-            s = z3.Solver()
-            s.add(*[vars_[k] == v for k, v in sm.items()])
-            s.add(sq("cur.seqid") == sq("acc.seqid"), sq("acc.strand") == sq("cur.strand"), sq("acc.featuretype") == sq("cur.featuretype"))
-            s.check()
-            exp = z3.is_true(s.model().eval(spec(), model_completion=True))
-            return {"inputs": sm, "expected": exp, "observed": got, "violates": got != exp}
+            # the model's coordinates, and for the three string criteria the model's strings plus a neighbourhood of
+            # pairs in which one string is a proper part of the other ('chr1' / 'chr10', '' / 'x', '+' / '+-')
+            strs = {"seqid": ("acc.seqid", "cur.seqid"), "strand": ("acc.strand", "cur.strand"), "feature_type": ("acc.featuretype", "cur.featuretype")}
+            pairs = [("a", "a")]
+            if name in strs:
+                ka, kc = strs[name]
+                pairs = [(m.get(ka, "a"), m.get(kc, "a")), ("chr10", "chr1"), ("chr1", "chr10"), ("x", ""), ("", "x"), ("ab", "ab"), ("+-", "+"), ("exon", "ex")]
+            last = None
+            for va, vc in pairs:
+                kwa = dict(seqid="a", strand="+", featuretype="x")
+                kwc = dict(kwa)
+                if name in strs:
+                    field = {"seqid": "seqid", "strand": "strand", "feature_type": "featuretype"}[name]
+                    kwa[field], kwc[field] = va, vc
+                acc = F.Feature(start=m.get("acc.start", 1), end=m.get("acc.end", 1), **kwa)
+                cur = F.Feature(start=m.get("cur.start", 1), end=m.get("cur.end", 1), **kwc)
+                f = getattr(MC, name)
+                if name.endswith("threshold"):
+                    f = f(m.get("threshold", 0))
+                got = bool(f(acc, cur, [acc]))
+                sm = {"acc.start": acc.start, "acc.end": acc.end, "cur.start": cur.start, "cur.end": cur.end, "threshold": m.get("threshold", 0)}
+                s = z3.Solver()
+                s.add(*[vars_[k] == v for k, v in sm.items() if not isinstance(v, dict)])
+                for nm, (ka, kc) in strs.items():
+                    fa = {"seqid": "seqid", "strand": "strand", "feature_type": "featuretype"}[nm]
+                    s.add(sq(ka) == z3.StringVal(kwa[fa]), sq(kc) == z3.StringVal(kwc[fa]))
+                s.check()
+                exp = z3.is_true(s.model().eval(spec(), model_completion=True))
+                last = {"inputs": dict(sm, acc=kwa, cur=kwc), "expected": exp, "observed": got, "violates": got != exp}
+                if last["violates"]:
+                    return last
+            return last
         for p in U.explore(run, it):
             ok = p.kind == "return"
             U.prove("C16.criteria.%s#p%d" % (name, p.index), "%s(acc, cur, members) == its arithmetic definition" % name, p.pc,
